@@ -119,6 +119,10 @@ func (f *BigFloat) SetElkFloat32(x Float32) *BigFloat {
 
 func (f *BigFloat) Hash() UInt64 {
 	d := xxhash.New()
+	if f.IsZero() {
+		// -0.0 == 0.0, both have to hash the same
+		f = (&BigFloat{}).SetPrecision(f.Precision())
+	}
 	bytes, err := f.AsGoBigFloat().GobEncode()
 	if err != nil {
 		panic(fmt.Sprintf("could not create a hash for big float: %s", err))
